@@ -12,7 +12,8 @@
   C05.R4  a requirement is judged per layer: missing dependencies are reported only when no pair of the (object) layer is realised;
           explicit pairs are grouped by the layer of the object-side module
   C05.R5  layer lookup (rules/c05_names.py): F-NAME sites reachable from LayerMapping.get_layer_for_module_name compare whole dotted
-          components; every ancestor is considered, not only the direct parent
+          components; every ancestor-or-self of the name, the top-level one included, is tested (scan over all listed names, or a
+          walk over derived names that is unrolled abstractly on 1-3 component names: rules/c05_walk.py)
   C05.R6  closures created in a loop / comprehension bind the loop's variables at creation time (late-binding lint)
   C05.R7  regex layers (conversion *and* rebuilt layer mapping) are resolved against the evaluable being judged: per evaluation a
           fresh matcher is built or the resolution runs unconditionally
